@@ -519,7 +519,7 @@ Proof.
     destruct (f_bad fl); [discriminate|].
     specialize (IH b1 (fi + 1)).
     destruct (spec_files blank pfail fresh cfg b1 (fi + 1) fs) as [[[e2 b2] s2] n2]. cbn [fst snd] in *.
-    intro H. rewrite (IH H). rewrite app_length, map_length. lia.
+    intro H. rewrite (IH H). rewrite app_length. lia.
 Qed.
 
 (* the documents handed to the expression, in order *)
@@ -606,7 +606,7 @@ Lemma run_seq_blocks_ok cfg b fs bs s :
 Proof.
   unfold run_seq_blocks.
   destruct (eval_files blank absorb pfail ev cfg b (mkSs 0 ps0 t0 0) fs) as [[st bs1] s1] eqn:E.
-  destruct (eval_files_blocks cfg b fs _ st bs1 s1 tinv0 E) as [H1 _].
+  destruct (eval_files_blocks cfg b fs (mkSs 0 ps0 t0 0) st bs1 s1 tinv0 E) as [H1 _].
   destruct s1.
   - destruct (total st =? 0).
     + unfold eval_new. destruct (fst (ev t0 [null_sdoc blank])) as [rs|] eqn:Ef.
@@ -634,3 +634,247 @@ Proof.
 Qed.
 
 End DriverFacts.
+
+(* ------------------------------------------------------------------ *)
+(* eval-all versus eval on a single-document input; no tree hypotheses *)
+(* ------------------------------------------------------------------ *)
+Section EvalAll.
+Variables P R T : Type.
+Variable blank : P.
+Variable absorb : list litem -> P -> P.
+Variable pfail : res R -> bool.
+Variable ev : T -> list (sdoc P) -> option (list (res R)) * T.
+Variable t0 : T.
+
+Definition set_together (sd : sdoc P) : sdoc P :=
+  mkSdoc (s_file sd) (s_doc sd) (s_name sd) true (s_lead sd) (s_body sd).
+
+Lemma evalall_single cfg b fl :
+  f_bad fl = false ->
+  (length (decode blank absorb true fl) <= 1)%nat ->
+  (forall sd, fst (ev t0 [set_together sd]) = fst (ev t0 [sd])) ->
+  run_all blank absorb pfail ev t0 cfg b [fl] = run_seq blank absorb pfail ev t0 cfg b [fl].
+Proof.
+  intros Hbad Hlen Htog.
+  unfold run_all, run_seq, run_seq_blocks. cbn [read_all eval_files]. rewrite Hbad.
+  unfold eval_file. cbn [file_index pr tree total]. rewrite Hbad.
+  destruct (decode blank absorb true fl) as [|d [|d2 ds]] eqn:Ed; [| |cbn [length] in Hlen; lia].
+  - cbn [stamp_together app is_nil eval_docs]. cbn [total N.add N.eqb]. unfold eval_new.
+    destruct (fst (ev t0 [null_sdoc blank])) as [rs|]; [|reflexivity].
+    cbn [pr]. destruct (print_results pfail cfg b ps0 rs) as [[ps1 es] s1]. unfold flat. cbn [app flat_map b_events]. rewrite app_nil_r. reflexivity.
+  - cbn [stamp_together app is_nil eval_docs].
+    specialize (Htog (mkSdoc 0 0 (f_name fl) false (d_lead d) (d_body d))). unfold set_together in Htog. cbn [s_file s_doc s_name s_lead s_body] in Htog.
+    rewrite Htog.
+    destruct (ev t0 [mkSdoc 0 0 (f_name fl) false (d_lead d) (d_body d)]) as [o t1]. cbn [fst].
+    destruct o as [rs|]; [|reflexivity].
+    destruct (print_results pfail cfg b ps0 rs) as [[ps1 es] s1].
+    destruct s1.
+    + cbn [total]. replace (0 + (0 + 1) =? 0) with false by reflexivity.
+      unfold flat. simpl. rewrite app_nil_r. reflexivity.
+    + unfold flat. simpl. rewrite app_nil_r. reflexivity.
+Qed.
+
+End EvalAll.
+
+(* ------------------------------------------------------------------ *)
+(* counting: one result per document                                    *)
+(* ------------------------------------------------------------------ *)
+Section Count.
+Variables P R : Type.
+Variable blank : P.
+Variable pfail : res R -> bool.
+Variable f : sdoc P -> option (list (res R)).
+
+Lemma count_res_app (a b : list (event R)) : count_res (a ++ b) = (count_res a + count_res b)%nat.
+Proof. unfold count_res. rewrite filter_app, app_length. reflexivity. Qed.
+
+Lemma count_res_strip (a : list (event R)) : count_res (strip_sep a) = count_res a.
+Proof.
+  unfold count_res, strip_sep. induction a as [|e a IH]; [reflexivity|].
+  cbn [filter]. destruct e; cbn [is_sep negb is_res filter length]; rewrite ?IH; reflexivity.
+Qed.
+
+Lemma count_res_lead cfg l : count_res (@lead_events R cfg l) = 0%nat.
+Proof.
+  unfold lead_events. destruct (print_lead cfg); [|reflexivity].
+  induction l as [|it l IH]; [reflexivity|]. cbn [flat_map]. rewrite count_res_app, IH.
+  destruct it; cbn [lead_event]; [destruct (print_seps cfg)|]; reflexivity.
+Qed.
+
+Lemma count_res_node cfg j (r : res R) : count_res (node_events cfg j r) = 1%nat.
+Proof.
+  unfold node_events. rewrite !count_res_app, count_res_lead. destruct (nul_sep cfg); reflexivity.
+Qed.
+
+Lemma count_res_doc_sep cfg : count_res (@doc_sep R cfg) = 0%nat.
+Proof. unfold doc_sep. destruct (print_seps cfg); reflexivity. Qed.
+
+Hypothesis one_each : forall sd, exists r, f sd = Some [r] /\ pfail r = false.
+
+Lemma join_count cfg : forall sds before,
+  count_res (jev (join_sep pfail cfg before (List.map f sds))) = length sds
+  /\ jst (join_sep pfail cfg before (List.map f sds)) = Done.
+Proof.
+  induction sds as [|sd sds IH]; intros before; cbn [List.map].
+  - repeat split.
+  - destruct (one_each sd) as (r & Hr & Hpf). rewrite Hr. cbn [join_sep chunk]. rewrite Hpf.
+    destruct (IH true) as (I1 & I2).
+    destruct (join_sep pfail cfg true (List.map f sds)) as [[e2 b2] s2]. unfold jev, jst, jbf in *. cbn [fst snd] in *.
+    repeat split.
+    + rewrite !count_res_app, count_res_node, I1.
+      destruct (before && negb (starts_with_sep (r_lead r))); [rewrite count_res_doc_sep|]; reflexivity.
+    + exact I2.
+Qed.
+
+Lemma spec_files_count_res cfg : forall (fs : list (file P)) before fi,
+  Forall (fun fl => f_bad fl = false) fs ->
+  count_res (fst (fst (fst (spec_files blank pfail f cfg before fi fs)))) = length (number_files blank fi fs)
+  /\ snd (fst (spec_files blank pfail f cfg before fi fs)) = Done.
+Proof.
+  induction fs as [|fl fs IH]; intros before fi Hg; cbn [spec_files number_files].
+  - split; reflexivity.
+  - inversion Hg as [|? ? Hb Hg']; subst.
+    destruct (join_count cfg (number_docs fi 0 (f_name fl) (decode blank (fun _ b => b) true fl)) before) as (J1 & J2).
+    destruct (join_sep pfail cfg before _) as [[e1 b1] s1]. unfold jev, jst in *. cbn [fst snd] in *. subst s1.
+    rewrite Hb. destruct (IH b1 (fi + 1) Hg') as (I1 & I2).
+    destruct (spec_files blank pfail f cfg b1 (fi + 1) fs) as [[[e2 b2] s2] n2]. cbn [fst snd] in *.
+    split; [|exact I2]. rewrite count_res_app, app_length, J1, I1. reflexivity.
+Qed.
+
+Lemma spec_files_len cfg : forall (fs : list (file P)) before fi,
+  snd (fst (spec_files blank pfail f cfg before fi fs)) = Done ->
+  snd (spec_files blank pfail f cfg before fi fs) = N.of_nat (length (number_files blank fi fs)).
+Proof.
+  induction fs as [|fl fs IH]; intros before fi; cbn [spec_files number_files].
+  - reflexivity.
+  - destruct (join_sep pfail cfg before _) as [[e1 b1] s1]. destruct s1; [|discriminate].
+    destruct (f_bad fl); [discriminate|].
+    specialize (IH b1 (fi + 1)).
+    destruct (spec_files blank pfail f cfg b1 (fi + 1) fs) as [[[e2 b2] s2] n2]. cbn [fst snd] in *.
+    intro H. rewrite (IH H). rewrite app_length. lia.
+Qed.
+
+(* over good files the specification is the flat separator-joined concatenation *)
+Lemma spec_files_flat cfg : forall (fs : list (file P)) before fi,
+  Forall (fun fl => f_bad fl = false) fs ->
+  let x := spec_files blank pfail f cfg before fi fs in
+  let j := join_sep pfail cfg before (List.map f (number_files blank fi fs)) in
+  fst (fst (fst x)) = jev j /\ snd (fst x) = jst j /\ (jst j = Done -> snd (fst (fst x)) = jbf j).
+Proof.
+  induction fs as [|fl fs IH]; intros before fi Hg; cbn [spec_files number_files].
+  - cbn. repeat split.
+  - inversion Hg as [|? ? Hb Hg']; subst. rewrite Hb. rewrite map_app, (join_sep_app R pfail cfg).
+    destruct (join_sep pfail cfg before (List.map f (number_docs fi 0 (f_name fl) (decode blank (fun _ b => b) true fl))))
+      as [[e1 b1] s1]. unfold jev, jst, jbf. cbn [fst snd].
+    destruct s1.
+    + specialize (IH b1 (fi + 1) Hg'). cbn zeta in IH. unfold jev, jst, jbf in IH.
+      destruct (spec_files blank pfail f cfg b1 (fi + 1) fs) as [[[e2 b2] s2] n2]. cbn [fst snd] in *.
+      destruct IH as (I1 & I2 & I3).
+      repeat split; [rewrite I1; reflexivity|exact I2|exact I3].
+    + cbn [fst snd]. repeat split.
+Qed.
+
+Lemma spec_run_flat cfg (fs : list (file P)) :
+  Forall (fun fl => f_bad fl = false) fs -> spec_docs blank fs <> [] ->
+  spec_run blank pfail f cfg fs =
+    (jev (join_sep pfail cfg false (List.map f (spec_docs blank fs))),
+     jst (join_sep pfail cfg false (List.map f (spec_docs blank fs)))).
+Proof.
+  intros Hg Hne. unfold spec_run, spec_docs in *.
+  destruct (spec_files_flat cfg fs false 0 Hg) as (F1 & F2 & _).
+  pose proof (spec_files_len cfg fs false 0) as Hn.
+  destruct (spec_files blank pfail f cfg false 0 fs) as [[[e b] s] n]. cbn [fst snd] in *.
+  rewrite <- F1, <- F2. destruct s; [|reflexivity].
+  rewrite (Hn eq_refl).
+  destruct (number_files blank 0 fs) as [|sd0 rest]; [congruence|].
+  assert (Hnz : (N.of_nat (length (sd0 :: rest)) =? 0) = false) by (apply N.eqb_neq; cbn [length]; lia).
+  rewrite Hnz. reflexivity.
+Qed.
+
+Lemma spec_run_count cfg (fs : list (file P)) :
+  Forall (fun fl => f_bad fl = false) fs ->
+  count_res (fst (spec_run blank pfail f cfg fs)) = Nat.max 1 (length (spec_docs blank fs))
+  /\ snd (spec_run blank pfail f cfg fs) = Done.
+Proof.
+  intro Hg. unfold spec_run, spec_docs.
+  destruct (spec_files_count_res cfg fs false 0 Hg) as (C1 & C2).
+  pose proof (spec_files_len cfg fs false 0) as Hn.
+  destruct (spec_files blank pfail f cfg false 0 fs) as [[[e b] s] n]. cbn [fst snd] in *. subst s.
+  specialize (Hn eq_refl). subst n.
+  destruct (number_files blank 0 fs) as [|sd0 rest].
+  - cbn [length N.of_nat N.eqb]. destruct (join_count cfg [null_sdoc blank] b) as (J1 & J2).
+    cbn [List.map] in J1, J2. destruct (join_sep pfail cfg b [f (null_sdoc blank)]) as [[e2 b2] s2].
+    unfold jev, jst in *. cbn [fst snd] in *. split; [|exact J2]. rewrite count_res_app, C1, J1. reflexivity.
+  - assert (Hnz : (N.of_nat (length (sd0 :: rest)) =? 0) = false) by (apply N.eqb_neq; cbn [length]; lia).
+    rewrite Hnz. cbn [fst snd]. split; [|reflexivity]. rewrite C1. cbn [length]. lia.
+Qed.
+
+End Count.
+
+Arguments fresh {P R T}. Arguments attached {P R T}. Arguments le1 {P R T}. Arguments set_together {P}.
+
+(* ------------------------------------------------------------------ *)
+(* statements as used by Props/C10.v                                    *)
+(* ------------------------------------------------------------------ *)
+Section Final.
+Variables P R T : Type.
+Variable blank : P.
+Variable absorb : list litem -> P -> P.
+Variable pfail : res R -> bool.
+Variable ev : T -> list (sdoc P) -> option (list (res R)) * T.
+Variable t0 : T.
+Variable TInv : T -> Prop.
+Hypothesis tinv0 : TInv t0.
+Hypothesis tinv_step : forall t ds, TInv t -> TInv (snd (ev t ds)).
+Hypothesis tinv_res : forall t ds, TInv t -> fst (ev t ds) = fst (ev t0 ds).
+
+Lemma seq_is_concat cfg b fs :
+  attached ev t0 -> (b = true \/ le1 ev t0) ->
+  Forall (fun fl => f_bad fl = false) fs -> spec_docs blank fs <> [] ->
+  run_seq blank absorb pfail ev t0 cfg b fs =
+    (jev (join_sep pfail cfg false (List.map (fresh ev t0) (spec_docs blank fs))),
+     jst (join_sep pfail cfg false (List.map (fresh ev t0) (spec_docs blank fs)))).
+Proof.
+  intros Ha Hb Hg Hne.
+  rewrite (run_seq_exact P R T blank absorb pfail ev t0 TInv tinv0 tinv_step tinv_res cfg b fs Ha Hb).
+  apply spec_run_flat; assumption.
+Qed.
+
+Lemma identity_count cfg b fs :
+  (forall sd, exists r, fresh ev t0 sd = Some [r] /\ pfail r = false) ->
+  Forall (fun fl => f_bad fl = false) fs ->
+  count_res (fst (run_seq blank absorb pfail ev t0 cfg b fs)) = Nat.max 1 (length (spec_docs blank fs))
+  /\ snd (run_seq blank absorb pfail ev t0 cfg b fs) = Done.
+Proof.
+  intros H1 Hg.
+  destruct (run_seq_content P R T blank absorb pfail ev t0 TInv tinv0 tinv_step tinv_res cfg b fs) as [C1 C2].
+  destruct (spec_run_count P R blank pfail (fresh ev t0) H1 cfg fs Hg) as [S1 S2].
+  split; [|congruence].
+  rewrite <- (count_res_strip R), C1, (count_res_strip R). exact S1.
+Qed.
+
+Lemma indices_true cfg b fs bs :
+  run_seq_blocks blank absorb pfail ev t0 cfg b fs = (bs, Done) -> spec_docs blank fs <> [] ->
+  List.map b_doc bs = spec_docs blank fs
+  /\ forall sd, In sd (spec_docs blank fs) <->
+       exists i fl k d, nth_error fs i = Some fl /\ nth_error (decode blank absorb true fl) k = Some d
+         /\ sd = mkSdoc (N.of_nat i) (N.of_nat k) (f_name fl) false (d_lead d) (d_body d).
+Proof.
+  intros E Hne.
+  destruct (run_seq_docs P R T blank absorb pfail ev t0 TInv tinv0 tinv_step tinv_res cfg b fs bs E) as [H1 _].
+  split; [exact (H1 Hne)|].
+  intro sd. unfold spec_docs. rewrite number_files_In.
+  split; intros (i & fl & k & d & A1 & A2 & A3); exists i, fl, k, d; (split; [exact A1|split]).
+  - rewrite decode_pre. exact A2.
+  - rewrite A3. reflexivity.
+  - rewrite decode_pre in A2. exact A2.
+  - rewrite A3. reflexivity.
+Qed.
+
+End Final.
+
+Lemma sort_tree_write_idempotent (P R E : Type) (self : E) (sort_by : option E -> list (sdoc P) -> option (list (res R))) :
+  forall t ds ds',
+    fst (sort_ev self sort_by t ds) = fst (sort_ev self sort_by None ds)
+    /\ sort_ev self sort_by (snd (sort_ev self sort_by t ds)) ds' = sort_ev self sort_by t ds'.
+Proof. intros. split; reflexivity. Qed.
